@@ -28,7 +28,12 @@ func vfRingIndex(b []byte) int { return int(b[3]) | int(b[4])<<8 }
 
 func vfRingUsed(q *ReplicationBufferQueue) uint64 {
 	n := uint64(0)
+	steps := 0
 	for it := q.tailItem; it != nil; it = it.nextItem {
+		steps++
+		if steps > 64 {
+			vfFail("C09: the ring's record list is cyclic (longer than everything ever pushed)")
+		}
 		n += 64
 		if it.data != nil {
 			n += uint64(len(it.data))
@@ -48,8 +53,13 @@ func vfH_C09_ring() {
 	push := func(name string) {
 		pushed++
 		var data []byte
-		if vfChoice(name, 2) == 1 {
+		switch vfChoice(name, 3) {
+		case 1:
 			data = []byte{8, 0, 0, 0, 0, 0, byte(pushed), 0, 0, 0, 0, 0}
+		case 2:
+			// a value larger than a record slot: one push can force several slots to be recycled at once
+			data = make([]byte, 104)
+			data[0], data[6] = 100, byte(pushed)
 		}
 		vfAssert(q.Push(vfRingRecord(pushed), data) == nil, "C09: Push failed")
 		vfAssert(q.usedBufferSize == vfRingUsed(q), "C09: usedBufferSize differs from the size of the records in the ring")
@@ -62,6 +72,18 @@ func vfH_C09_ring() {
 	j := vfRange("resume", 1, p0)
 	var id [16]byte
 	copy(id[:], vfRingRecord(j)[3:19])
+	inRing := false
+	for it := q.tailItem; it != nil; it = it.nextItem {
+		if vfRingIndex(it.buf) == j {
+			inRing = true
+		}
+	}
+	if !inRing {
+		// a large value already pushed record j out of the ring: the follower must be told to start over
+		vfAssert(q.Search(id, cur) != nil, "C09: Search claims to find a record that has left the ring")
+		vfReach("resume-gone")
+		return
+	}
 	vfAssert(q.Search(id, cur) == nil, "C09: Search does not find a record that is still in the ring")
 	vfAssert(vfRingIndex(cur.buf) == j, "C09: Search positioned the cursor on a different record")
 	registered := vfChoice("registered", 2) == 1
@@ -80,7 +102,7 @@ func vfH_C09_ring() {
 			vfReach("popped")
 			vfAssert(idx == last+1, "C09: the ring handed a consumer a record that is not the next one (skip, duplicate or reorder)")
 			if cur.data != nil {
-				vfAssert(len(cur.data) == 12 && cur.data[6] == byte(idx), "C09: the value attached to a record was mixed up")
+				vfAssert((len(cur.data) == 12 || len(cur.data) == 104) && cur.data[6] == byte(idx), "C09: the value attached to a record was mixed up")
 			}
 			last = idx
 			cur.currentItem.pollIndex++ // the consumer has sent it
